@@ -42,7 +42,7 @@ ASSUMPTIONS = [
 ]
 SHARD_TIMEOUT = {"quick": 600, "thorough": 3600}
 
-N_RANDOM = {"quick": 2400, "thorough": 40000}
+N_RANDOM = {"quick": 2400, "thorough": 120000}
 N_SHARDS = {"quick": 16, "thorough": 16}
 
 PRECEDENCE_FORMS = ["sb_subtask", "sb_timepoint", "sb_timing", "lt", "gt", "ordered", "frac0"]
